@@ -34,6 +34,7 @@ func checkC15(c *Ctx) {
 	c.insertIdenticalForms()
 	c.removeSingleForms()
 	c.mergeRefusal()
+	c.graftIndexAfterEdit()
 	c.checkPair("PAIR", map[string]bool{"InsertIdenticalTip": true, "GraftTreeOnTip": true, "removeSingleNodesRecur": true, "Merge": true, "copyTreeRecur": true})
 	c.Floor("FIELDS", 12)
 	c.Floor("ALIAS", 2)
